@@ -1,16 +1,19 @@
 From Coq Require Import List NArith Bool.
-From LTV.C17 Require Import Model Proofs ProofsA ProofsB.
+From LTV.C17 Require Import Model Proofs ProofsA ProofsB ProofsC ProofsD ProofsE.
 Import ListNotations.
+
+(* Conventions: all theorems quantify over ALL client programs [progs], callback bodies [bds], id counts and
+   ALL schedules (reachable = closure of [step c t] over every thread choice). Assumptions of the
+   model: sequentially consistent atomics, strong CAS, wait(old) enabled iff word <> old. *)
 
 (* bit layout of the id word re-extracted from thread.cc / common.h *)
 Theorem params_ok_now : Proofs.params_ok = true.
 Proof. exact Proofs.params_ok_now. Qed.
 Print Assumptions params_ok_now.
 
-(* ALL programs, bodies, schedules: in every reachable state in which no count overflow was thrown,
-   every thread's pending-operation stack has the shape of ProofsA.shape: at most one callback is
-   being executed per thread, m_callback_processing_id is exactly that callback's id, a post /
-   cancel in progress sits on top of it. *)
+(* at most one callback is being executed per thread, m_callback_processing_id is exactly that
+   callback's id, a post / cancel in progress sits on top of it; a thread parked at cw_wait / cw_cas
+   carries the facts it observed (ProofsA.micro_ok) *)
 Theorem shape_invariant : forall progs nids bds c,
   reachable (init progs nids bds) c -> crashed c = false -> Forall wf_thread (threads c).
 Proof. exact ProofsB.reachable_wf. Qed.
@@ -25,19 +28,136 @@ Theorem in_callback_shape : forall progs nids bds c t th u,
 Proof. exact ProofsB.in_callback_shape. Qed.
 Print Assumptions in_callback_shape.
 
-(* ALL schedules from ANY configuration: the (ghost, unbounded) generation of every id never decreases *)
+(* the (ghost, unbounded) generation of every id never decreases *)
 Theorem generation_monotone : forall sched c, ids_le (ids c) (ids (run c sched)).
 Proof. exact ProofsB.run_gen_monotone. Qed.
 Print Assumptions generation_monotone.
 
-(* cancel_final is FALSE for the two-argument form when the caller is inside a callback of the id
-   (0x8 handshake path): computed witness, replayed on the real code by corpus/C17/refuted.case *)
+(* COUNT INVARIANT: count bits of every id word = posts in flight (between fetch_add and fetch_sub)
+   + dispatches between their fetch_add and fetch_sub, summed over all threads; and <= 7 *)
+Theorem count_invariant : forall progs nids bds c j w,
+  reachable (init progs nids bds) c -> crashed c = false -> nth_error (ids c) j = Some w ->
+  (cnt w <= 7)%N /\ cnt w = N.of_nat (hsum j (threads c)).
+Proof. intros. eapply ProofsE.reachable_cnt; eauto. Qed.
+Print Assumptions count_invariant.
+
+(* with at most 3 threads the "lower id overflow" internal_error is unreachable, under every schedule *)
+Theorem no_count_overflow : forall progs nids bds c,
+  length progs <= 3 -> reachable (init progs nids bds) c -> crashed c = false.
+Proof. intros. eapply ProofsC.reachable_all; eauto. Qed.
+Print Assumptions no_count_overflow.
+
+(* every queued / locally batched callback of an id has expected generation <= the id's generation *)
+Theorem expected_le_generation : forall progs nids bds c e i w,
+  reachable (init progs nids bds) c -> entry_of c e -> e_id e = Some i -> nth_error (ids c) i = Some w ->
+  (fst (e_exp e) <= gen w)%N.
+Proof. exact ProofsD.entries_expected_le. Qed.
+Print Assumptions expected_le_generation.
+
+(* CAS success in cancel_callback_and_wait(id)  =>  count = 0, or count = 1 and it is the caller's own
+   dispatch; and no OTHER thread holds a count of the id (hl = 0: not posting under it, not between a
+   dispatch's fetch_add and fetch_sub, not inside a callback of it - see not_holding_means) *)
+Theorem cas_success_quiescent : forall progs nids bds c t th i old rest w,
+  length progs <= 3 -> reachable (init progs nids bds) c ->
+  nth_error (threads c) t = Some th -> todo th = ICwCas i old :: rest ->
+  nth_error (ids c) i = Some w -> word_eqb w old = true ->
+  (cnt w = 0%N \/ (cnt w = 1%N /\ proc th = Some i)) /\
+  forall t2 th2, t2 <> t -> nth_error (threads c) t2 = Some th2 -> hl i (todo th2) = 0.
+Proof. exact ProofsC.cas_success_quiescent. Qed.
+Print Assumptions cas_success_quiescent.
+
+Theorem not_holding_means : forall i th2, wf_thread th2 -> hl i (todo th2) = 0 ->
+  proc th2 <> Some i /\
+  (forall e, In (IRun e) (todo th2) \/ In (IRet e) (todo th2) -> e_id e <> Some i) /\
+  (forall tgt k u x b, ~ In (IPostLock tgt k i u x b) (todo th2)) /\
+  (forall tgt u si, ~ In (IPostSub tgt i u si) (todo th2)) /\
+  (forall u, ~ In (IEndCb i u) (todo th2) /\ ~ In (ISkipSub i u) (todo th2)).
+Proof. exact ProofsC.not_holding_means. Qed.
+Print Assumptions not_holding_means.
+
+(* CANCEL_FINAL, single-argument form - PARTIAL. Proved (for all programs and schedules):
+   (1) when the call returns (CAS success) no other thread is running, or has decided to run, or is
+       posting a callback of the id [cas_success_quiescent];
+   (2) every callback of the id that is queued or batched at that moment has expected generation
+       <= old generation < the generation written by the CAS [expected_le_generation + bump];
+   (3) generations never decrease [generation_monotone], and the dispatch check skips every entry
+       whose expected generation is below the current one while the 28-bit counter has not wrapped
+       (explicit assumption gen < 2^28 = gmod) [stale_entry_skipped].
+   MISSING for the trace-level statement "EvRun u is never logged after EvCwRet": the bookkeeping
+   invariant that ties the uid in the log to the unique entry carrying it (uids in queues/batches/IRun
+   are pairwise distinct and fresh w.r.t. nposted; fin1 <= posted; no post of a returned uid is in
+   flight). It is exercised by the correspondence run + oracle class "cancel-final" only. *)
+Theorem cancel_final_single_partial : forall progs nids bds c t th i old rest w,
+  length progs <= 3 -> reachable (init progs nids bds) c ->
+  nth_error (threads c) t = Some th -> todo th = ICwCas i old :: rest ->
+  nth_error (ids c) i = Some w -> word_eqb w old = true ->
+  (forall t2 th2, t2 <> t -> nth_error (threads c) t2 = Some th2 -> hl i (todo th2) = 0) /\
+  (forall e, entry_of c e -> e_id e = Some i -> (fst (e_exp e) < gen (bump w))%N) /\
+  (forall e w', (fst (e_exp e) < gen w')%N -> (gen w' < gmod)%N -> upper_eqb (upper w') (e_exp e) = false).
+Proof. exact ProofsE.cancel_final_single_partial. Qed.
+Print Assumptions cancel_final_single_partial.
+
+(* two-argument form called from OUTSIDE a callback of the id behaves exactly as the single-argument
+   form (so everything above applies to it) *)
+Theorem cancel_two_arg_outside_is_single : forall c t th i rest,
+  nth_error (threads c) t = Some th -> todo th = ICmd (CancelWait2 i) :: rest -> oidx_is (proc th) i = false ->
+  step c t = step (set_thread c t (set_todo th (ICmd (CancelWait i) :: rest))) t.
+Proof. exact ProofsE.two_arg_outside_is_single. Qed.
+Print Assumptions cancel_two_arg_outside_is_single.
+
+(* ... and from INSIDE a callback of the id cancel_final is FALSE (0x8 handshake path): computed witness,
+   replayed on the real code by corpus/C17/refuted.case; known finding cw2-handshake-does-not-wait *)
 Theorem cancel_final_two_arg_refuted :
   exists progs bds nids sched u t i,
     let c := run (init progs nids bds) sched in
-    crashed c = false /\ In u (fin2 c) /\ runs_after_cancel (rev (log c)) u t i = true.
+    crashed c = false /\ In (u, i) (fin2 c) /\ runs_after_cancel (rev (log c)) u t i = true.
 Proof. exact ProofsB.cancel_final_two_arg_refuted. Qed.
 Print Assumptions cancel_final_two_arg_refuted.
+
+(* SELF_CANCEL_OK: a thread inside a callback of id i never waits for its own dispatch count *)
+Theorem self_cancel_ok : forall progs nids bds c t th i old rest,
+  reachable (init progs nids bds) c -> crashed c = false ->
+  nth_error (threads c) t = Some th -> todo th = ICwWait i old :: rest -> proc th = Some i ->
+  (2 <= cnt old)%N.
+Proof. exact ProofsE.self_cancel_ok. Qed.
+Print Assumptions self_cancel_ok.
+Theorem self_cancel_no_wait : forall th i w, proc th = Some i -> cnt w = 1%N -> cw_after_load th i w = ICwCas i w.
+Proof. exact ProofsE.self_cancel_no_wait. Qed.
+Print Assumptions self_cancel_no_wait.
+
+(* RUNS_AT_MOST_ONCE - PARTIAL: proved: a step logs at most one run event (and only the IRun /
+   id-less IBatch-head steps log one, consuming that entry). MISSING: pairwise distinctness of the
+   uids held in queues / batches / IRun items (freshness w.r.t. nposted), from which
+   "count (EvRun u) log <= 1" follows; exercised by the oracle class "runs-twice". *)
+Theorem runs_at_most_once_partial : forall c t c', step c t = Some c' ->
+  exists evs, log c' = evs ++ log c /\ length (filter is_run evs) <= 1.
+Proof. exact ProofsE.step_logs_at_most_one_run. Qed.
+Print Assumptions runs_at_most_once_partial.
+
+(* FIFO_PER_KIND - PARTIAL: proved: a post appends at the tail of the queue of its kind and leaves the
+   other queue alone; a dispatch takes the whole interrupt queue (else, unless only_interrupt, the whole
+   normal queue) in order, and IBatch is consumed head first (Model.step). MISSING: the trace-level
+   statement over the log; exercised by the oracle class "fifo". *)
+Theorem fifo_per_kind_partial :
+  (forall b k e,
+    (k = KNormal -> qn (fst (push_entry b k e)) = qn b ++ [e] /\ qi (fst (push_entry b k e)) = qi b) /\
+    (k = KIntr -> qi (fst (push_entry b k e)) = qi b ++ [e] /\ qn (fst (push_entry b k e)) = qn b)) /\
+  (forall b oi batch b1, disp_lock b oi = (batch, b1) ->
+    (batch = qi b /\ qi b <> [] /\ qn b1 = qn b /\ qi b1 = []) \/
+    (qi b = [] /\ oi = true /\ batch = [] /\ qn b1 = qn b) \/
+    (qi b = [] /\ oi = false /\ batch = qn b /\ qn b1 = [] /\ qi b1 = [])).
+Proof. split. exact ProofsE.push_appends. exact ProofsE.dispatch_takes_queue_in_order. Qed.
+Print Assumptions fifo_per_kind_partial.
+
+(* FIRST_PUSH_INTERRUPTS - PARTIAL: proved: should_interrupt is true exactly when the queue of that kind
+   was empty; the step function then schedules IPostIntr before the post returns (Model.step, cases
+   IPostSub si=true / id-less first=true). MISSING: the trace-level statement; exercised by the oracle
+   class "first-push-interrupt" and by label equality (cb_interrupt appears iff should_interrupt). *)
+Theorem first_push_interrupts_partial : forall b k e,
+  snd (push_entry b k e) = match k with KNormal => match qn b with [] => true | _ => false end
+                                      | KIntr => match qi b with [] => true | _ => false end end.
+Proof. exact ProofsE.push_first_iff_empty. Qed.
+Print Assumptions first_push_interrupts_partial.
 
 (* mutual cancellation through the single-argument form deadlocks (why the two-argument form exists) *)
 Theorem single_arg_mutual_cancel_deadlocks :
@@ -46,10 +166,13 @@ Theorem single_arg_mutual_cancel_deadlocks :
 Proof. exact ProofsB.single_arg_mutual_cancel_deadlocks. Qed.
 Print Assumptions single_arg_mutual_cancel_deadlocks.
 
-(* finite instance (bound in the statement): from the reachable state in which both threads are inside a
-   callback of the shared id and about to call cancel_callback_and_wait(id, other), every maximal
-   interleaving finishes both threads within 40 steps *)
-Theorem mutual_cancel_no_deadlock_instance :
+(* MUTUAL_CANCEL_NO_DEADLOCK - PARTIAL (finite instance, bound in the statement): from the reachable
+   state in which both threads are inside a callback of the shared id and about to call
+   cancel_callback_and_wait(id, other), every maximal interleaving finishes both threads within 40
+   steps. MISSING: the statement for arbitrary two-thread programs (needs a progress measure on top of
+   shape_invariant + count_invariant: a thread in the handshake path never waits on the count, a thread
+   in wait_for_deadlock waits only while the other is between dl_cas and dl_fetch_and). *)
+Theorem mutual_cancel_no_deadlock_partial :
   reachable (init dead_progs 1 mut_bodies) mut_mid /\ all_paths_finish 40 mut_mid = true.
 Proof. exact ProofsB.mutual_cancel_no_deadlock_instance. Qed.
-Print Assumptions mutual_cancel_no_deadlock_instance.
+Print Assumptions mutual_cancel_no_deadlock_partial.
